@@ -75,10 +75,12 @@ def remove_neg_underflow_K : Kind :=
   (Kind.mk {} (.some (.mk (.cons [0] (Kind.mk { integer := true } .none .none) .nil) (.exact (Kind.mk { integer := true } .none .none)))) .none)
 def remove_neg_underflow_p : Path :=
   [.index (-3)]
-theorem witness_remove_neg_underflow :
-    mem remove_neg_underflow_v remove_neg_underflow_K = true ∧ Kind.Outcome.isPanic (remove_neg_underflow_K.remove remove_neg_underflow_p false) = true ∧
-    removeLawM remove_neg_underflow_v remove_neg_underflow_K remove_neg_underflow_p false = false ∧
-    panicClassRemove remove_neg_underflow_K remove_neg_underflow_p false = .remove_neg_underflow := by decide
+/-- fixed (`D_remove_neg_underflow`; e3023e2): `x + 1 - negative_index` underflowed (a panic while
+    typing); with the saturating subtraction the removal succeeds and the law holds -/
+theorem fixed_remove_neg_underflow :
+    mem remove_neg_underflow_v remove_neg_underflow_K = true ∧ Kind.Outcome.isPanic (remove_neg_underflow_K.remove remove_neg_underflow_p false) = false ∧
+    removeLawM remove_neg_underflow_v remove_neg_underflow_K remove_neg_underflow_p false = true ∧
+    panicClassRemove remove_neg_underflow_K remove_neg_underflow_p false = .none := by decide
 
 /-! `o.c19.remove  ⇥  [ i:1 b:73 t ]  ⇥  K - C { #0 K i _ _ #1 K b _ _ #2 K o _ _ } E K u _ _ _  ⇥  #0  ⇥  0` -/
 def remove_shift_v : Value :=
@@ -87,9 +89,12 @@ def remove_shift_K : Kind :=
   (Kind.mk {} (.some (.mk (.cons [0] (Kind.mk { integer := true } .none .none) (.cons [1] (Kind.mk { bytes := true } .none .none) (.cons [2] (Kind.mk { boolean := true } .none .none) .nil))) (.exact (Kind.mk { undefined := true } .none .none)))) .none)
 def remove_shift_p : Path :=
   [.index (0)]
-theorem witness_remove_shift :
-    mem remove_shift_v remove_shift_K = true ∧ removeLawM remove_shift_v remove_shift_K remove_shift_p false = false ∧
-    removeClass remove_shift_K remove_shift_p false = .remove_shift := by decide
+/-- fixed (`D_remove_shift`; ff94317): the loop of `remove_shift` never advanced, so of
+    `[integer, bytes, boolean]` minus index 0 only one element moved (`{0: bytes, 2: boolean}`); now
+    every later known element moves and `["s", true]` belongs to the kind left behind -/
+theorem fixed_remove_shift :
+    mem remove_shift_v remove_shift_K = true ∧ removeLawM remove_shift_v remove_shift_K remove_shift_p false = true ∧
+    removeClass remove_shift_K remove_shift_p false = .none := by decide
 
 /-! `o.c19.remove  ⇥  [ re:612b ]  ⇥  K - C { #0 K r _ _ #1 K fu _ _ } E K bn _ _ _  ⇥  #-1  ⇥  0` -/
 def remove_minlen_counts_optional_v : Value :=
